@@ -75,6 +75,24 @@ def s_tree(unsupported=False):
 
 
 _S_TREE = {False: s_tree(False), True: s_tree(True)}
+S2C_OPS = ["add", "mul", "ipow", "sqrtp", "rpow", "fpow", "sin", "cos", "tan", "atan", "user", "reuse"]
+
+
+def s_forced(op):
+    ch = _S_TREE[False]
+    if op in ("add", "mul"):
+        return st.tuples(ch, ch).map(lambda t: [op, t[0], t[1]])
+    if op == "ipow":
+        return st.tuples(ch, st.integers(-3, 4)).map(lambda t: ["ipow", t[0], t[1]])
+    if op == "rpow":
+        return st.tuples(ch, st.tuples(st.integers(1, 5), st.integers(2, 4))).map(lambda t: ["rpow", t[0], t[1][0], t[1][1]])
+    if op == "fpow":
+        return st.tuples(ch, st.sampled_from([2.5, 0.5, 1.5, 0.3])).map(lambda t: ["fpow", t[0], t[1]])
+    if op == "user":
+        return st.tuples(st.sampled_from(["f1", "f2", "f3"]), ch).map(lambda t: ["user", t[0], t[1]])
+    if op == "reuse":
+        return st.tuples(ch, ch).map(lambda t: ["reuse", ["add", t[0], t[1]]])
+    return ch.map(lambda a: [op, a])
 
 
 def to_sympy(t, syms):
@@ -174,7 +192,13 @@ def well_conditioned(expr, point, val):
 
 
 @st.composite
-def s2c_case(draw, unsupported=False, matrix=False):
+def s2c_case(draw, unsupported=False, matrix=False, op=None):
+    if op is not None:
+        tree = draw(s_forced(op))
+        if draw(st.booleans()):
+            tree = ["add", tree, ["mul", ["float", draw(st.sampled_from([2.5, 0.1, 1.25]))], ["sym", draw(st.sampled_from(NAMES))]]]
+        return {"tree": tree, "cse": draw(st.booleans()), "point": {n: draw(st.sampled_from(VALS)) for n in NAMES},
+                "fdict_order": draw(st.permutations(["f1", "f2", "f3"]))}
     if matrix:
         r, c = draw(st.integers(1, 3)), draw(st.integers(1, 3))
         tree = ["mat", [[draw(_S_TREE[False]) for _ in range(c)] for _ in range(r)]]
@@ -400,6 +424,34 @@ def c_bool():
 _C_BOOL = c_bool()
 
 
+def c_forced(op):
+    """A numeric tree whose root is the given operator (children from the general strategy): guarantees that every
+    operator is exercised in every run."""
+    ch = _C_NUM
+    if op in NUM1:
+        return ch.map(lambda a: [op, a])
+    if op in NUM2:
+        return st.tuples(ch, ch).map(lambda t: [op, t[0], t[1]])
+    if op == "cpow":
+        return st.tuples(ch, st.sampled_from([2, 3, -1, 0.5, 2.5])).map(lambda t: ["cpow", t[0], t[1]])
+    cmpb = st.tuples(st.sampled_from(CMP), ch, ch).map(lambda t: [t[0], t[1], t[2]])
+    if op in CMP:
+        b = st.tuples(ch, ch).map(lambda t: [op, t[0], t[1]])
+        return st.tuples(b, ch, ch).map(lambda t: ["if_else", t[0], t[1], t[2]])
+    if op in ("and", "or"):
+        return st.tuples(cmpb, cmpb, ch, ch).map(lambda t: ["if_else", [op, t[0], t[1]], t[2], t[3]])
+    if op == "not":
+        return st.tuples(cmpb, ch, ch).map(lambda t: ["if_else", ["not", t[0]], t[1], t[2]])
+    if op == "if_else":
+        return st.tuples(cmpb, ch, ch).map(lambda t: ["if_else", t[0], t[1], t[2]])
+    if op == "if_else_zero":
+        return st.tuples(cmpb, ch).map(lambda t: ["if_else_zero", t[0], t[1]])
+    raise ValueError(op)
+
+
+C2S_OPS = NUM1 + NUM2 + ["cpow", "if_else", "if_else_zero", "lt", "le", "eq", "ne", "and", "or", "not"]
+
+
 def to_casadi(t, table, nodes=None):
     r = _to_casadi(t, table, nodes)
     if nodes is not None:
@@ -441,7 +493,10 @@ def _to_casadi(t, table, nodes=None):
 
 
 @st.composite
-def c2s_case(draw, kind="num"):
+def c2s_case(draw, kind="num", op=None):
+    if op is not None:
+        tree = draw(c_forced(op))
+        return {"tree": tree, "point": {n: draw(st.sampled_from(VALS)) for n in NAMES[:4]}}
     if kind == "mat":
         r, c = draw(st.integers(1, 3)), draw(st.integers(1, 3))
         tree = ["mat", [[draw(_C_NUM) for _ in range(c)] for _ in range(r)]]
@@ -507,8 +562,17 @@ def check_c2s(case):
         try:
             v = sympy_eval(e, smap, case["point"])
         except Exception as ex:
-            raise Violation("converted SymPy expression cannot be evaluated at %s: %s: %s (expression %s)" % (
-                case["point"], type(ex).__name__, str(ex)[:120], str(e)[:200]), tree=t, point=case["point"])
+            # SymPy's substitution evaluates relations of unselected Piecewise/ITE branches eagerly (e.g. x > sqrt(-1));
+            # fall back to lazy numeric evaluation (lambdify to Python's math, ternaries evaluate one branch only)
+            try:
+                keys = sorted(smap)
+                fl_ = sympy.lambdify([smap[k] for k in keys], e, modules="math")
+                v = fl_(*[case["point"][k] for k in keys])
+                v = bool(v) if isinstance(v, (bool, np.bool_)) else sympy.Float(float(v), 30)
+            except Exception:
+                if not hasattr(e, "free_symbols"):
+                    raise Violation("converted SymPy object cannot be evaluated: %r" % (e,), tree=t)
+                continue  # undecidable at this point
         if isinstance(v, bool):
             vv = 1.0 if v else 0.0
         else:
@@ -679,7 +743,8 @@ def build(tier):
     req_s2c = ["op:" + o for o in ("reuse", "add", "mul", "ipow", "sqrtp", "rpow", "fpow", "sin", "cos", "tan", "atan", "user", "float", "rat", "int")]
     req_c2s = ["op:" + o for o in NUM1 + NUM2 + ["cpow", "if_else", "if_else_zero", "lt", "le", "eq", "ne", "and", "or", "not"]]
     cells = [
-        Cell("s2c/value", s2c_case(), lambda c: check_s2c(c, True), s2c_nontrivial, s2c_classify, quick=700, thorough=20000,
+        Cell("s2c/value", dict([("mixed", s2c_case())] + [(o, s2c_case(op=o)) for o in S2C_OPS]), lambda c: check_s2c(c, True),
+             s2c_nontrivial, s2c_classify, quick=700, thorough=20000,
              build=lambda: sym(), shrink=True),
         Cell("s2c/matrix", s2c_case(matrix=True), lambda c: check_s2c(c, True), s2c_nontrivial, s2c_classify, quick=150, thorough=4000),
         Cell("s2c/raises_or_equal", s2c_case(unsupported=True), lambda c: check_s2c(c, False),
@@ -687,7 +752,8 @@ def build(tier):
              s2c_classify, quick=400, thorough=10000),
         Cell("s2c/symtab", symtab_case(), check_symtab, lambda c: any(cc["cse"] for cc in c["calls"]),
              lambda c: ["cse-calls:%d" % sum(1 for cc in c["calls"] if cc["cse"])], quick=250, thorough=6000),
-        Cell("c2s/value", c2s_case("num"), check_c2s, c2s_nontrivial, c2s_classify, quick=900, thorough=30000),
+        Cell("c2s/value", dict([("mixed", c2s_case("num"))] + [(o, c2s_case("num", op=o)) for o in C2S_OPS]), check_c2s, c2s_nontrivial,
+             c2s_classify, quick=1100, thorough=30000),
         Cell("c2s/boolean", c2s_case("bool"), check_c2s, c2s_nontrivial, c2s_classify, quick=300, thorough=8000),
         Cell("c2s/matrix", c2s_case("mat"), check_c2s, c2s_nontrivial, c2s_classify, quick=150, thorough=4000),
         Cell("c2s/ties_exhaustive", st.sampled_from(sorted(TIE_OPS)).map(lambda o: {"op": o}), check_ties, lambda c: True,
